@@ -30,6 +30,53 @@
 //! Oracle note: I1/I2 deliberately use jiff's own `to_offset`/`to_datetime`
 //! (C03 decides whether those are right); C13 decides whether the cached
 //! components of a `Zoned` can ever disagree with them.
+//!
+//! Coverage extension (round 3). Three things were added:
+//!
+//! * I2m/I2a: the civil datetime is ALSO recomputed with the reference model
+//!   (`refmodel::cal`, i128 arithmetic: instant + offset seconds), and every
+//!   civil accessor of `Zoned` (year .. subsec_nanosecond, weekday,
+//!   day_of_year, day_of_year_no_leap, era_year, days_in_month, days_in_year,
+//!   in_leap_year, date, time, iso_week_date) is compared with the model.
+//!   I5 additionally compares each produced value with the state it was
+//!   produced from and with the instants 1 ns before/after it in another zone
+//!   (different instants must be ordered as the instants, whatever the civil
+//!   readings are); I7: `clone()` is field-for-field identical.
+//! * PROBES: non-expanding actions. A probe executes a real jiff operation on
+//!   the state and checks the invariant on the produced value exactly like an
+//!   expanding action, but the produced value is not added to the state
+//!   space (so the number of probes costs linearly, not to the power of the
+//!   depth). Light probes (`L`) are offered in every expanded state up to a
+//!   declared depth, the heavy text-parsing probes (`H`) up to a smaller
+//!   declared depth. They cover every public producer of a `Zoned` that the
+//!   expanding alphabet does not: SignedDuration / std Duration arithmetic,
+//!   saturating arithmetic, the operators, `nth_weekday_of_month`, further
+//!   rounding units/modes, every `ZonedWith` setter, `TimeZone::to_zoned`,
+//!   `AmbiguousZoned::{compatible,earlier,later,unambiguous}`,
+//!   `into_ambiguous_zoned`, `DateTime::in_tz`, `Date::{to_zoned,in_tz}`,
+//!   `Timestamp::in_tz`, `clone`, `TryFrom<SystemTime>`, and the parsers
+//!   (`DateTimeParser::parse_zoned` with every OffsetConflict x
+//!   Disambiguation on text whose offset is right / wrong / absent / `Z`,
+//!   `Zoned::strptime` with `%Q` / `%:z`, `rfc2822::parse`). Producers that
+//!   take a civil datetime are fed the state's civil datetime shifted by
+//!   0, +1 h, -1 h and +30 min, so that civil times inside gaps (which no
+//!   `Zoned` can display) reach them. The probes of the depth-0 states are run
+//!   by `run_bfs` itself (in parallel, before the checker starts), those of
+//!   deeper states are ordinary `Model::actions` whose `next_state` is `None`.
+//!   A probe's signature is `<probe name without the civil shift>/<failure
+//!   class>[:civil-unambiguous|:civil-in-gap|:civil-in-fold]`.
+//!   Tiers: quick = L and H in depths 0..=1; thorough/wide = L in 0..=2 (0..=1
+//!   in the debug-assertion build), H in 0..=1; thorough/deep4 = L in 0..=2, H
+//!   in 0..=1; deep7-core = no probes.
+//!   Excluded (and counted): an operator (`+`, `-`, `+=`, `-=`) panic when the
+//!   checked twin returns an error (documented); parsing probes for the
+//!   POSIX zone (it cannot be written down); `Zoned::now` (clock).
+//!   Not covered: serde `Deserialize` (feature not enabled in this crate; it
+//!   calls the default `DateTimeParser::parse_zoned`).
+//! * start values: `Timestamp::MIN`, `Timestamp::MAX` and the zone's first
+//!   offset change (LMT -> standard time, sub-minute offsets) were added; and,
+//!   entered at depth 1, each chosen transition -24 h -+ 15 min and +24 h -+ 15
+//!   min (the neighbouring days at a clock time inside the gap / fold).
 
 #[path = "../../vf/src/guard.rs"]
 #[allow(dead_code)]
@@ -39,9 +86,11 @@ mod guard;
 mod report;
 
 use guard::{guard, panic_sig};
-use jiff::civil::Weekday;
-use jiff::tz::{Disambiguation, Offset, OffsetConflict, TimeZone};
-use jiff::{RoundMode, Span, Timestamp, Unit, Zoned, ZonedRound};
+use jiff::civil::{Date, DateTime, Era, Time, Weekday};
+use jiff::fmt::temporal::DateTimeParser;
+use jiff::tz::{AmbiguousOffset, Disambiguation, Offset, OffsetConflict, TimeZone};
+use jiff::{RoundMode, SignedDuration, Span, Timestamp, Unit, Zoned, ZonedRound};
+use std::time::Duration as StdDuration;
 use refmodel::{cal, tz as rtz};
 use report::Report;
 use serde_json::json;
@@ -97,11 +146,139 @@ enum Op {
     TimestampToZoned,
     /// r = epoch_in_zone.until((largest, z)); epoch_in_zone.checked_add(r)
     UntilAdd(Unit),
+    // ---- probes (non-expanding) -------------------------------------------
+    /// checked_add / checked_sub with a SignedDuration or a std Duration
+    Checked(bool, Arith),
+    /// saturating_add / saturating_sub
+    Saturating(bool, Arith),
+    /// `&z + a`, `&z - a`, `z += a`, `z -= a` (documented to panic on overflow)
+    Operator(Oper, Arith),
+    NthWeekdayOfMonth(i8, Weekday),
+    /// z.round(unit) through `From<Unit>`
+    RoundUnit(Unit),
+    /// z.round((unit, increment)) through `From<(Unit, i64)>`
+    RoundUnitInc(Unit, i64),
+    WithDate(DateSel),
+    WithTime(Time),
+    WithYear(YearSel),
+    WithEraYear(i16, Era),
+    WithDayOfYear(i16),
+    WithDayOfYearNoLeap(i16),
+    WithSecond(i8),
+    WithMillisecond(i16),
+    WithMicrosecond(i16),
+    /// with().hour(h).offset_conflict(c): the conflict is with the ORIGINAL offset
+    WithHourConflict(i8, OffsetConflict),
+    /// with().hour(h).minute(m).offset(current + delta).offset_conflict(c).disambiguation(d)
+    WithAll(i8, i8, i32, OffsetConflict, Disambiguation),
+    /// with().build()
+    WithNothing,
+    /// a producer that takes a civil datetime, fed datetime() + shift seconds
+    Civil(i64, CivilProd),
+    /// z.timestamp().in_tz(name)
+    TimestampInTz,
+    /// Zoned::new(z.timestamp(), tz)
+    ZonedNew,
+    Clone,
+    /// Zoned::try_from(SystemTime::from(z.timestamp())) (zone = TimeZone::system())
+    FromSystemTime,
+    /// DateTimeParser::new().offset_conflict(c).disambiguation(d).parse_zoned(text)
+    /// with text = (datetime() + shift) ++ offset text ++ [zone]
+    ParseTemporal(i64, OffText, OffsetConflict, Disambiguation),
+    /// Zoned::strptime on text built from datetime() + shift
+    Strptime(i64, StrpKind),
+    /// rfc2822::to_string(z) -> rfc2822::parse (false) / DateTimeParser::parse_zoned (true)
+    Rfc2822(bool),
+}
+
+#[derive(Clone, Copy, Debug)]
+enum Arith {
+    Sp(Span),
+    Sd(SignedDuration),
+    Ud(StdDuration),
+}
+
+#[derive(Clone, Copy, Debug, PartialEq)]
+enum Oper {
+    Add,
+    Sub,
+    AddAssign,
+    SubAssign,
+}
+
+#[derive(Clone, Copy, Debug)]
+enum DateSel {
+    Fixed(i16, i8, i8),
+    Tomorrow,
+}
+
+#[derive(Clone, Copy, Debug)]
+enum YearSel {
+    Fixed(i16),
+    Previous,
+}
+
+#[derive(Clone, Copy, Debug)]
+enum CivilProd {
+    DateTimeToZoned,
+    DateTimeInTz,
+    TzToZoned,
+    Compatible,
+    Earlier,
+    Later,
+    Unambiguous,
+    IntoAmbiguous(Disambiguation),
+    DateToZoned,
+    DateInTz,
+}
+
+#[derive(Clone, Copy, Debug)]
+enum OffText {
+    /// no offset in the text
+    Absent,
+    /// `Z`
+    Zulu,
+    /// the state's offset + delta seconds, printed exactly (`+hh:mm[:ss]`)
+    Cur(i32),
+}
+
+#[derive(Clone, Copy, Debug)]
+enum StrpKind {
+    /// `%Q` only (IANA name)
+    Q,
+    /// `%:z %Q` with offset = current + delta
+    ZQ(i32),
+    /// `%:z` only -> a fixed-offset zone
+    Z(i32),
+}
+
+/// The zone a produced value must be in.
+#[derive(Clone, Debug)]
+enum WantZone {
+    /// zone of the run, by index
+    Idx(u8),
+    Fixed(Offset),
+    System,
+}
+
+struct Out {
+    v: Zoned,
+    zone: WantZone,
+    keeps_instant: bool,
+    /// input-derived class appended to the failure class of a signature:
+    /// the ambiguity class of the civil datetime handed to the producer
+    input_class: &'static str,
 }
 
 struct Act {
     name: String,
+    /// the signature prefix: the name for the expanding actions; for probes
+    /// the name without the civil shift (an input class, not an operation)
+    sig: String,
     op: Op,
+    /// `None`: an expanding action. `Some(d)`: a probe, offered in states of
+    /// depth <= d; its value is invariant-checked but not added to the space.
+    probe: Option<u8>,
 }
 
 struct Zn {
@@ -113,19 +290,146 @@ struct Zn {
 
 const SHARDS: usize = 64;
 
+/// A counter sharded by thread (one cache line per slot): the run-wide
+/// counters are touched on every transition by 16 threads.
+#[repr(align(128))]
+struct Slot(AtomicU64);
+struct Ctr(Vec<Slot>);
+const CTR_SLOTS: usize = 64;
+thread_local! {
+    static CTR_SLOT: usize = {
+        let mut h = std::collections::hash_map::DefaultHasher::new();
+        std::thread::current().id().hash(&mut h);
+        (h.finish() as usize) % CTR_SLOTS
+    };
+}
+impl Ctr {
+    fn new() -> Ctr {
+        Ctr((0..CTR_SLOTS).map(|_| Slot(AtomicU64::new(0))).collect())
+    }
+    #[inline]
+    fn fetch_add(&self, n: u64, o: std::sync::atomic::Ordering) {
+        self.0[CTR_SLOT.with(|s| *s)].0.fetch_add(n, o);
+    }
+    fn load(&self, o: std::sync::atomic::Ordering) -> u64 {
+        self.0.iter().map(|s| s.0.load(o)).sum()
+    }
+}
+
 struct Shared {
     r: Arc<Report>,
     zones: Vec<Zn>,
     acts: Vec<Act>,
     bound: u8,
-    transitions: AtomicU64,
-    no_successor: AtomicU64,
-    produced: AtomicU64,
-    violating_values: AtomicU64,
+    transitions: Ctr,
+    no_successor: Ctr,
+    produced: Ctr,
+    violating_values: Ctr,
     /// (instant, zone) -> minimal depth at which it was produced
     values: Vec<Mutex<HashMap<(i128, u8), u8>>>,
     per_action_ok: Vec<AtomicU64>,
     per_action_err: Vec<AtomicU64>,
+    /// produced values whose offset differs from the offset of the state they
+    /// were produced from, per action (the cases in which a stale cached
+    /// offset would be visible)
+    per_action_offset_changed: Vec<AtomicU64>,
+    /// `TimeZone::system()` as seen by this process (TZ is set by `main`)
+    system_tz: TimeZone,
+    probe_transitions: Ctr,
+    /// civil inputs handed to the civil-datetime producers: unambiguous, gap, fold
+    civil_inputs: [Ctr; 3],
+    /// operator panics excluded because the checked twin returns an error
+    operator_overflow_panics: Ctr,
+    /// pairs (value, other value) on which ==, cmp, Hash were compared:
+    /// [same instant, different instants]
+    pairs: [Ctr; 2],
+    accessor_fields_compared: Ctr,
+}
+
+fn arith_checked(z: &Zoned, add: bool, a: Arith) -> Result<Zoned, jiff::Error> {
+    match (add, a) {
+        (true, Arith::Sp(x)) => z.checked_add(x),
+        (true, Arith::Sd(x)) => z.checked_add(x),
+        (true, Arith::Ud(x)) => z.checked_add(x),
+        (false, Arith::Sp(x)) => z.checked_sub(x),
+        (false, Arith::Sd(x)) => z.checked_sub(x),
+        (false, Arith::Ud(x)) => z.checked_sub(x),
+    }
+}
+
+fn arith_saturating(z: &Zoned, add: bool, a: Arith) -> Zoned {
+    match (add, a) {
+        (true, Arith::Sp(x)) => z.saturating_add(x),
+        (true, Arith::Sd(x)) => z.saturating_add(x),
+        (true, Arith::Ud(x)) => z.saturating_add(x),
+        (false, Arith::Sp(x)) => z.saturating_sub(x),
+        (false, Arith::Sd(x)) => z.saturating_sub(x),
+        (false, Arith::Ud(x)) => z.saturating_sub(x),
+    }
+}
+
+fn arith_operator(z: &Zoned, o: Oper, a: Arith) -> Zoned {
+    match (o, a) {
+        (Oper::Add, Arith::Sp(x)) => z + x,
+        (Oper::Add, Arith::Sd(x)) => z + x,
+        (Oper::Add, Arith::Ud(x)) => z + x,
+        (Oper::Sub, Arith::Sp(x)) => z - x,
+        (Oper::Sub, Arith::Sd(x)) => z - x,
+        (Oper::Sub, Arith::Ud(x)) => z - x,
+        (Oper::AddAssign, a) => {
+            let mut t = z.clone();
+            match a {
+                Arith::Sp(x) => t += x,
+                Arith::Sd(x) => t += x,
+                Arith::Ud(x) => t += x,
+            }
+            t
+        }
+        (Oper::SubAssign, a) => {
+            let mut t = z.clone();
+            match a {
+                Arith::Sp(x) => t -= x,
+                Arith::Sd(x) => t -= x,
+                Arith::Ud(x) => t -= x,
+            }
+            t
+        }
+    }
+}
+
+/// `+hh:mm` or `+hh:mm:ss` (exact; never rounded)
+fn offset_text(seconds: i32, colon: bool) -> String {
+    let sign = if seconds < 0 { '-' } else { '+' };
+    let a = seconds.unsigned_abs();
+    let (h, m, sec) = (a / 3600, (a / 60) % 60, a % 60);
+    match (colon, sec) {
+        (true, 0) => format!("{}{:02}:{:02}", sign, h, m),
+        (true, _) => format!("{}{:02}:{:02}:{:02}", sign, h, m, sec),
+        (false, 0) => format!("{}{:02}{:02}", sign, h, m),
+        (false, _) => format!("{}{:02}{:02}{:02}", sign, h, m, sec),
+    }
+}
+
+/// The civil reading of `instant + offset` by the reference model.
+struct Civil {
+    epoch_day: i64,
+    y: i64,
+    m: i64,
+    d: i64,
+    hh: i64,
+    mi: i64,
+    ss: i64,
+    sub: i64,
+}
+
+fn model_civil(ts_ns: i128, offset_s: i32) -> Civil {
+    let local = ts_ns + offset_s as i128 * NS;
+    let day_ns = 86_400 * NS;
+    let epoch_day = local.div_euclid(day_ns) as i64;
+    let rem = local.rem_euclid(day_ns);
+    let (y, m, d) = cal::civil_from_days(epoch_day);
+    let secs = (rem / NS) as i64;
+    Civil { epoch_day, y, m, d, hh: secs / 3600, mi: (secs / 60) % 60, ss: secs % 60, sub: (rem % NS) as i64 }
 }
 
 impl Shared {
@@ -143,12 +447,153 @@ impl Shared {
         format!("zone={} ts={} action={}", self.zones[zone as usize].name, ns, act.name)
     }
 
+    /// The civil datetime handed to a civil-datetime producer: the state's
+    /// datetime shifted by `shift` seconds on the wall clock (a jiff civil
+    /// addition, used as a building block only). Counts its ambiguity class.
+    fn civil_input(&self, z: &Zoned, shift: i64) -> Option<(DateTime, &'static str)> {
+        let dt = if shift == 0 { z.datetime() } else { z.datetime().checked_add(SignedDuration::from_secs(shift)).ok()? };
+        let k = match z.time_zone().to_ambiguous_timestamp(dt).offset() {
+            AmbiguousOffset::Unambiguous { .. } => 0,
+            AmbiguousOffset::Gap { .. } => 1,
+            AmbiguousOffset::Fold { .. } => 2,
+        };
+        self.civil_inputs[k].fetch_add(1, Relaxed);
+        Some((dt, [":civil-unambiguous", ":civil-in-gap", ":civil-in-fold"][k]))
+    }
+
+    /// The operators are documented to panic on overflow: a panic is excluded
+    /// (and counted) exactly when the checked twin returns an error.
+    fn exec_operator(&self, z: &Zoned, zone: u8, o: Oper, a: Arith) -> Result<Option<Out>, String> {
+        match guard(|| arith_operator(z, o, a)) {
+            Ok(v) => Ok(Some(Out { v, zone: WantZone::Idx(zone), keeps_instant: false, input_class: "" })),
+            Err(p) => {
+                let add = o == Oper::Add || o == Oper::AddAssign;
+                match guard(|| arith_checked(z, add, a).is_err()) {
+                    Ok(true) => {
+                        self.operator_overflow_panics.fetch_add(1, Relaxed);
+                        Ok(None)
+                    }
+                    _ => Err(p),
+                }
+            }
+        }
+    }
+
     /// Execute the real operation. Ok(None) = the operation returned Err
-    /// (no successor); Ok(Some((value, expected zone, keeps instant))).
-    fn exec(&self, z: &Zoned, zone: u8, op: &Op) -> Result<Option<(Zoned, u8, bool)>, String> {
-        let tz = &self.zones[zone as usize].tz;
-        let same = |v: Result<Zoned, jiff::Error>| v.ok().map(|v| (v, zone, false));
+    /// (no successor); Ok(Some(value, expected zone, keeps instant)).
+    fn exec(&self, z: &Zoned, zone: u8, op: &Op) -> Result<Option<Out>, String> {
+        let zn = &self.zones[zone as usize];
+        let tz = &zn.tz;
+        if let Op::Operator(o, a) = op {
+            return self.exec_operator(z, zone, *o, *a);
+        }
+        let out = |v: Zoned, zone: WantZone, keeps_instant: bool| Out { v, zone, keeps_instant, input_class: "" };
+        let same = |v: Result<Zoned, jiff::Error>| v.ok().map(|v| out(v, WantZone::Idx(zone), false));
+        let classed = |o: Option<Out>, input_class: &'static str| o.map(|o| Out { input_class, ..o });
         guard(|| match op {
+            Op::Operator(..) => unreachable!(),
+            Op::Checked(add, a) => same(arith_checked(z, *add, *a)),
+            Op::Saturating(add, a) => same(Ok(arith_saturating(z, *add, *a))),
+            Op::NthWeekdayOfMonth(n, w) => same(z.nth_weekday_of_month(*n, *w)),
+            Op::RoundUnit(u) => same(z.round(*u)),
+            Op::RoundUnitInc(u, i) => same(z.round((*u, *i))),
+            Op::WithDate(DateSel::Fixed(y, m, d)) => same(Date::new(*y, *m, *d).and_then(|d| z.with().date(d).build())),
+            Op::WithDate(DateSel::Tomorrow) => same(z.date().tomorrow().and_then(|d| z.with().date(d).build())),
+            Op::WithTime(t) => same(z.with().time(*t).build()),
+            Op::WithYear(YearSel::Fixed(y)) => same(z.with().year(*y).build()),
+            Op::WithYear(YearSel::Previous) => same(z.with().year(z.year() - 1).build()),
+            Op::WithEraYear(y, e) => same(z.with().era_year(*y, *e).build()),
+            Op::WithDayOfYear(d) => same(z.with().day_of_year(*d).build()),
+            Op::WithDayOfYearNoLeap(d) => same(z.with().day_of_year_no_leap(*d).build()),
+            Op::WithSecond(v) => same(z.with().second(*v).build()),
+            Op::WithMillisecond(v) => same(z.with().millisecond(*v).build()),
+            Op::WithMicrosecond(v) => same(z.with().microsecond(*v).build()),
+            Op::WithHourConflict(h, c) => same(z.with().hour(*h).offset_conflict(*c).build()),
+            Op::WithAll(h, mi, delta, c, d) => match Offset::from_seconds(z.offset().seconds() + delta) {
+                Ok(o) => same(z.with().hour(*h).minute(*mi).offset(o).offset_conflict(*c).disambiguation(*d).build()),
+                Err(_) => None,
+            },
+            Op::WithNothing => same(z.with().build()),
+            Op::Civil(shift, prod) => {
+                if matches!(prod, CivilProd::DateTimeInTz | CivilProd::DateInTz) && zn.iana.is_none() {
+                    return None;
+                }
+                let (dt, class) = self.civil_input(z, *shift)?;
+                let name = zn.iana.as_deref().unwrap_or("");
+                classed(same(match prod {
+                    CivilProd::DateTimeToZoned => dt.to_zoned(tz.clone()),
+                    CivilProd::DateTimeInTz => dt.in_tz(name),
+                    CivilProd::TzToZoned => tz.to_zoned(dt),
+                    CivilProd::Compatible => tz.to_ambiguous_zoned(dt).compatible(),
+                    CivilProd::Earlier => tz.to_ambiguous_zoned(dt).earlier(),
+                    CivilProd::Later => tz.to_ambiguous_zoned(dt).later(),
+                    CivilProd::Unambiguous => tz.to_ambiguous_zoned(dt).unambiguous(),
+                    CivilProd::IntoAmbiguous(d) => tz.clone().into_ambiguous_zoned(dt).disambiguate(*d),
+                    CivilProd::DateToZoned => dt.date().to_zoned(tz.clone()),
+                    CivilProd::DateInTz => dt.date().in_tz(name),
+                }), class)
+            }
+            Op::TimestampInTz => z.timestamp().in_tz(zn.iana.as_deref()?).ok().map(|v| out(v, WantZone::Idx(zone), true)),
+            Op::ZonedNew => Some(out(Zoned::new(z.timestamp(), tz.clone()), WantZone::Idx(zone), true)),
+            Op::Clone => Some(out(z.clone(), WantZone::Idx(zone), true)),
+            Op::FromSystemTime => Zoned::try_from(std::time::SystemTime::from(z.timestamp())).ok().map(|v| out(v, WantZone::System, false)),
+            Op::ParseTemporal(shift, off, c, d) => {
+                // the zone annotation: the IANA name, or the offset of a fixed
+                // zone; a POSIX zone cannot be written down (see PrintParse)
+                let ann = match (&zn.iana, zn.name.strip_prefix("fixed(").and_then(|x| x.strip_suffix(')'))) {
+                    (Some(n), _) => n.clone(),
+                    (None, Some(o)) => o.to_string(),
+                    _ => return None,
+                };
+                let (dt, class) = self.civil_input(z, *shift)?;
+                let off = match off {
+                    OffText::Absent => String::new(),
+                    OffText::Zulu => "Z".to_string(),
+                    OffText::Cur(delta) => {
+                        let o = z.offset().seconds() + delta;
+                        Offset::from_seconds(o).ok()?;
+                        offset_text(o, true)
+                    }
+                };
+                let text = format!("{}{}[{}]", dt, off, ann);
+                classed(same(DateTimeParser::new().offset_conflict(*c).disambiguation(*d).parse_zoned(&text)), class)
+            }
+            Op::Strptime(shift, kind) => {
+                let (dt, class) = self.civil_input(z, *shift)?;
+                let civil = dt.strftime("%Y-%m-%dT%H:%M:%S%.f").to_string();
+                let cur = z.offset().seconds();
+                classed(match kind {
+                    StrpKind::Q => same(Zoned::strptime("%Y-%m-%dT%H:%M:%S%.f %Q", format!("{} {}", civil, zn.iana.as_deref()?))),
+                    StrpKind::ZQ(delta) => {
+                        Offset::from_seconds(cur + delta).ok()?;
+                        let text = format!("{} {} {}", civil, offset_text(cur + delta, true), zn.iana.as_deref()?);
+                        same(Zoned::strptime("%Y-%m-%dT%H:%M:%S%.f %:z %Q", text))
+                    }
+                    StrpKind::Z(delta) => {
+                        let o = Offset::from_seconds(cur + delta).ok()?;
+                        let text = format!("{} {}", civil, offset_text(cur + delta, true));
+                        Zoned::strptime("%Y-%m-%dT%H:%M:%S%.f %:z", text).ok().map(|v| out(v, WantZone::Fixed(o), false))
+                    }
+                }, class)
+            }
+            Op::Rfc2822(with_parser) => {
+                let text = jiff::fmt::rfc2822::to_string(z).ok()?;
+                // the zone of the result is the fixed offset WRITTEN IN THE
+                // TEXT (read back here independently): `+hhmm` at the end
+                let t = text.as_bytes();
+                let n = t.len();
+                if n < 5 || !(t[n - 5] == b'+' || t[n - 5] == b'-') || !t[n - 4..].iter().all(|b| b.is_ascii_digit()) {
+                    return None;
+                }
+                let dig = |i: usize| (t[n - 4 + i] - b'0') as i32;
+                let mut o = (dig(0) * 10 + dig(1)) * 3600 + (dig(2) * 10 + dig(3)) * 60;
+                if t[n - 5] == b'-' {
+                    o = -o;
+                }
+                let o = Offset::from_seconds(o).ok()?;
+                let v = if *with_parser { jiff::fmt::rfc2822::DateTimeParser::new().parse_zoned(&text) } else { jiff::fmt::rfc2822::parse(&text) };
+                v.ok().map(|v| out(v, WantZone::Fixed(o), false))
+            }
             Op::Add(s) => same(z.checked_add(*s)),
             Op::Sub(s) => same(z.checked_sub(*s)),
             Op::Round(u, inc, m) => same(z.round(ZonedRound::new().smallest(*u).increment(*inc).mode(*m))),
@@ -172,15 +617,15 @@ impl Shared {
             Op::FirstOfYear => same(z.first_of_year()),
             Op::LastOfYear => same(z.last_of_year()),
             Op::NthWeekday(n, w) => same(z.nth_weekday(*n, *w)),
-            Op::WithTimeZone(t) => Some((z.with_time_zone(self.zones[*t as usize].tz.clone()), *t, true)),
-            Op::InTz(t) => z.in_tz(self.zones[*t as usize].iana.as_deref().unwrap()).ok().map(|v| (v, *t, true)),
+            Op::WithTimeZone(t) => Some(out(z.with_time_zone(self.zones[*t as usize].tz.clone()), WantZone::Idx(*t), true)),
+            Op::InTz(t) => z.in_tz(self.zones[*t as usize].iana.as_deref().unwrap()).ok().map(|v| out(v, WantZone::Idx(*t), true)),
             Op::DateTimeToZoned => same(z.datetime().to_zoned(tz.clone())),
             Op::Ambiguous(d) => same(tz.to_ambiguous_zoned(z.datetime()).disambiguate(*d)),
             // a POSIX zone has neither an IANA name nor a fixed offset: its
             // printed form carries only the offset (not a claim of C09/C13)
             Op::PrintParse if self.zones[zone as usize].name.starts_with("posix(") => None,
             Op::PrintParse => same(z.to_string().parse::<Zoned>()),
-            Op::TimestampToZoned => Some((z.timestamp().to_zoned(tz.clone()), zone, false)),
+            Op::TimestampToZoned => Some(out(z.timestamp().to_zoned(tz.clone()), WantZone::Idx(zone), false)),
             Op::UntilAdd(u) => {
                 let base = Zoned::new(Timestamp::UNIX_EPOCH, tz.clone());
                 match base.until((*u, z)) {
@@ -192,28 +637,111 @@ impl Shared {
     }
 
     /// The invariant on a produced value. Returns false if it is violated.
-    fn invariant(&self, v: &Zoned, from_ns: i128, from_zone: u8, act: &Act, want_zone: u8, keeps_instant: bool) -> bool {
+    /// `src` is the state the value was produced from (None for start values).
+    #[allow(clippy::too_many_arguments)]
+    fn invariant(&self, v: &Zoned, src: Option<&Zoned>, from_ns: i128, from_zone: u8, act: &Act, want: &WantZone, keeps_instant: bool, input_class: &str) -> bool {
         let sec = "bfs";
         let case = || self.case(from_ns, from_zone, act);
         let res = guard(|| {
             let mut bad: Vec<(&'static str, String)> = vec![];
             let ts = v.timestamp();
+            let tsn = ts.as_nanosecond();
             let want_off = v.time_zone().to_offset(ts);
             if v.offset() != want_off {
                 bad.push(("offset-mismatch", format!("offset() = {:?} but time_zone().to_offset(timestamp()) = {:?}; value {:?}", v.offset(), want_off, v)));
             }
             let want_dt = v.offset().to_datetime(ts);
             if v.datetime() != want_dt {
-                bad.push(("datetime-mismatch", format!("datetime() = {} but offset().to_datetime(timestamp()) = {}; offset {:?} ts {}", v.datetime(), want_dt, v.offset(), ts.as_nanosecond())));
+                bad.push(("datetime-mismatch", format!("datetime() = {} but offset().to_datetime(timestamp()) = {}; offset {:?} ts {}", v.datetime(), want_dt, v.offset(), tsn)));
             }
-            if v.time_zone() != &self.zones[want_zone as usize].tz {
-                bad.push(("zone-unexpected", format!("zone is {:?}, expected {}", v.time_zone(), self.zones[want_zone as usize].name)));
+            // I2m: the civil datetime recomputed by the reference model from
+            // the instant and offset() (no jiff arithmetic involved)
+            let c = model_civil(tsn, v.offset().seconds());
+            let dt = v.datetime();
+            let got = (dt.year() as i64, dt.month() as i64, dt.day() as i64, dt.hour() as i64, dt.minute() as i64, dt.second() as i64, dt.subsec_nanosecond() as i64);
+            if got != (c.y, c.m, c.d, c.hh, c.mi, c.ss, c.sub) {
+                bad.push((
+                    "datetime-vs-model",
+                    format!("datetime() = {} but instant {} ns shifted by offset {} s reads {:04}-{:02}-{:02}T{:02}:{:02}:{:02}.{:09}", dt, tsn, v.offset().seconds(), c.y, c.m, c.d, c.hh, c.mi, c.ss, c.sub),
+                ));
             }
-            if keeps_instant && ts.as_nanosecond() != from_ns {
-                bad.push(("instant-changed", format!("instant {} -> {}", from_ns, ts.as_nanosecond())));
+            // I2a: every civil accessor of the Zoned itself against the model
+            let mut clone_differs: Option<String> = None;
+            {
+                let mut f: Vec<String> = vec![];
+                let mut chk = |name: &str, got: i64, want: i64| {
+                    if got != want {
+                        f.push(format!("{}() = {} model {}", name, got, want));
+                    }
+                };
+                chk("year", v.year() as i64, c.y);
+                chk("month", v.month() as i64, c.m);
+                chk("day", v.day() as i64, c.d);
+                chk("hour", v.hour() as i64, c.hh);
+                chk("minute", v.minute() as i64, c.mi);
+                chk("second", v.second() as i64, c.ss);
+                chk("millisecond", v.millisecond() as i64, c.sub / 1_000_000);
+                chk("microsecond", v.microsecond() as i64, (c.sub / 1_000) % 1_000);
+                chk("nanosecond", v.nanosecond() as i64, c.sub % 1_000);
+                chk("subsec_nanosecond", v.subsec_nanosecond() as i64, c.sub);
+                chk("weekday", v.weekday().to_sunday_zero_offset() as i64, cal::weekday_from_days(c.epoch_day) as i64);
+                let doy = cal::day_of_year(c.y, c.m, c.d);
+                chk("day_of_year", v.day_of_year() as i64, doy);
+                let leap = cal::is_leap(c.y);
+                let nl = if leap && (c.m, c.d) == (2, 29) { -1 } else if leap && c.m > 2 { doy - 1 } else { doy };
+                chk("day_of_year_no_leap", v.day_of_year_no_leap().map(|x| x as i64).unwrap_or(-1), nl);
+                let (ey, era) = v.era_year();
+                let (wy, wera) = if c.y >= 1 { (c.y, Era::CE) } else { (1 - c.y, Era::BCE) };
+                chk("era_year.0", ey as i64, wy);
+                chk("era_year.1", (era == Era::CE) as i64, (wera == Era::CE) as i64);
+                chk("days_in_month", v.days_in_month() as i64, cal::days_in_month(c.y, c.m));
+                chk("days_in_year", v.days_in_year() as i64, cal::days_in_year(c.y));
+                chk("in_leap_year", v.in_leap_year() as i64, leap as i64);
+                let d = v.date();
+                chk("date.year", d.year() as i64, c.y);
+                chk("date.month", d.month() as i64, c.m);
+                chk("date.day", d.day() as i64, c.d);
+                let t = v.time();
+                chk("time.hour", t.hour() as i64, c.hh);
+                chk("time.minute", t.minute() as i64, c.mi);
+                chk("time.second", t.second() as i64, c.ss);
+                chk("time.subsec_nanosecond", t.subsec_nanosecond() as i64, c.sub);
+                let (iy, iw, iwd) = cal::iso_week_date(c.y, c.m, c.d);
+                // I7 (clone() is field-for-field identical) is checked on the
+                // same clone that `iso_week_date(self)` consumes
+                let cl = v.clone();
+                if cl.timestamp() != ts || cl.offset() != v.offset() || cl.datetime() != v.datetime() || cl.time_zone() != v.time_zone() {
+                    clone_differs = Some(format!("clone {:?} of value {:?}", cl, v));
+                }
+                let w = cl.iso_week_date();
+                chk("iso_week_date.year", w.year() as i64, iy);
+                chk("iso_week_date.week", w.week() as i64, iw);
+                chk("iso_week_date.weekday", w.weekday().to_monday_one_offset() as i64, iwd);
+                self.accessor_fields_compared.fetch_add(29, Relaxed);
+                if !f.is_empty() {
+                    bad.push(("accessor-vs-model", format!("{}; value {:?}", f.join(", "), v)));
+                }
+            }
+            let fixed_tz;
+            let want_tz: &TimeZone = match want {
+                WantZone::Idx(i) => &self.zones[*i as usize].tz,
+                WantZone::Fixed(o) => {
+                    fixed_tz = TimeZone::fixed(*o);
+                    &fixed_tz
+                }
+                WantZone::System => &self.system_tz,
+            };
+            if v.time_zone() != want_tz {
+                bad.push(("zone-unexpected", format!("zone is {:?}, expected {:?}", v.time_zone(), want_tz)));
+            }
+            if keeps_instant && tsn != from_ns {
+                bad.push(("instant-changed", format!("instant {} -> {}", from_ns, tsn)));
             }
             // Eq / Ord / Hash depend on the instant only
-            let other = (want_zone as usize + 1) % self.zones.len();
+            let other = match want {
+                WantZone::Idx(i) => (*i as usize + 1) % self.zones.len(),
+                _ => (from_zone as usize + 1) % self.zones.len(),
+            };
             let w = Zoned::new(ts, self.zones[other].tz.clone());
             let hash = |z: &Zoned| {
                 let mut h = std::collections::hash_map::DefaultHasher::new();
@@ -226,9 +754,73 @@ impl Shared {
                     format!("same instant in {}: == {} cmp {:?} hash equal {}", self.zones[other].name, v == &w, v.cmp(&w), hash(v) == hash(&w)),
                 ));
             }
+            // the `&Zoned` flavours of == and partial_cmp, and reflexivity
+            {
+                // (`rv == w` / `rv < w` with `rv: &Zoned`, `w: Zoned` select the
+                // `impl PartialEq<Zoned> for &Zoned` / `impl PartialOrd<Zoned> for
+                // &Zoned`; a method call would auto-deref to the `Zoned` impls)
+                let rv: &Zoned = v;
+                if !(rv == w)
+                    || <&Zoned as PartialOrd<Zoned>>::partial_cmp(&rv, &w) != Some(std::cmp::Ordering::Equal)
+                    || rv < w
+                    || rv > w
+                    || !(rv <= w)
+                    || !(rv >= w)
+                    || !(&w == *rv)
+                    || w.cmp(v) != std::cmp::Ordering::Equal
+                    || v != v
+                {
+                    bad.push(("eq-ord-hash", format!("same instant in {}: &Zoned == Zoned {} / reversed / reflexive comparison disagree", self.zones[other].name, rv == w)));
+                }
+            }
+            self.pairs[0].fetch_add(1, Relaxed);
+            // different instants are ordered as the instants are: the state
+            // the value came from, and the instants 1 ns before and after it
+            // read in the other zone (whose civil reading is usually far away)
+            {
+                // (one neighbour per value, the side chosen by the parity of the
+                // instant's second: both sides occur over the run)
+                let delta: i128 = if tsn.div_euclid(NS) % 2 == 0 { 1 } else { -1 };
+                let neighbour = Timestamp::from_nanosecond(tsn + delta)
+                    .or_else(|_| Timestamp::from_nanosecond(tsn - delta))
+                    .ok()
+                    .map(|t| Zoned::new(t, self.zones[other].tz.clone()));
+                let others: [Option<(&Zoned, &str)>; 2] =
+                    [src.map(|z0| (z0, "the source state")), neighbour.as_ref().map(|n| (n, "1 ns away in another zone"))];
+                for (o, what) in others.iter().flatten() {
+                    let o: &Zoned = o;
+                    let m = tsn.cmp(&o.timestamp().as_nanosecond());
+                    let is_eq = m == std::cmp::Ordering::Equal;
+                    let rv: &Zoned = v;
+                    let (lt, gt) = (m == std::cmp::Ordering::Less, m == std::cmp::Ordering::Greater);
+                    let ok = v.cmp(o) == m
+                        && o.cmp(v) == m.reverse()
+                        && v.partial_cmp(o) == Some(m)
+                        && <&Zoned as PartialOrd<Zoned>>::partial_cmp(&rv, o) == Some(m)
+                        && (v == o) == is_eq
+                        && (rv == *o) == is_eq
+                        && (v < o) == lt
+                        && (v > o) == gt
+                        && (rv < *o) == lt
+                        && (rv > *o) == gt
+                        && (rv <= *o) == !gt
+                        && (rv >= *o) == !lt
+                        && (!is_eq || hash(v) == hash(o));
+                    self.pairs[if is_eq { 0 } else { 1 }].fetch_add(1, Relaxed);
+                    if !ok {
+                        bad.push((
+                            "eq-ord-hash",
+                            format!("against {} ({:?}): instants compare {:?}, cmp {:?}, == {}, hash equal {}", what, o, m, v.cmp(o), v == o, hash(v) == hash(o)),
+                        ));
+                    }
+                }
+            }
+            if let Some(d) = clone_differs {
+                bad.push(("clone-differs", d));
+            }
             // field-for-field equal to the canonical reconstruction (what the
             // canonicalisation argument relies on)
-            let canon = Zoned::new(ts, self.zones[want_zone as usize].tz.clone());
+            let canon = Zoned::new(ts, want_tz.clone());
             if bad.is_empty() && (canon.offset() != v.offset() || canon.datetime() != v.datetime()) {
                 bad.push(("differs-from-Zoned::new", format!("Zoned::new gives {:?}, value is {:?}", canon, v)));
             }
@@ -236,12 +828,14 @@ impl Shared {
         });
         match res {
             Err(p) => {
-                self.r.viol(sec, &format!("{}/invariant-{}", act.name, panic_sig(&p)), case(), p);
+                self.r.viol(sec, &format!("{}/invariant-{}{}", act.sig, panic_sig(&p), input_class), case(), p);
                 false
             }
-            Ok(bad) => {
+            Ok(mut bad) => {
+                // one line per failure class
+                bad.dedup_by(|a, b| a.0 == b.0);
                 for (class, detail) in &bad {
-                    self.r.viol(sec, &format!("{}/{}", act.name, class), case(), detail.clone());
+                    self.r.viol(sec, &format!("{}/{}{}", act.sig, class, input_class), case(), detail.clone());
                 }
                 bad.is_empty()
             }
@@ -249,15 +843,23 @@ impl Shared {
     }
 
     /// One transition: rebuild the value, run the operation, check the
-    /// invariant, canonicalise.
+    /// invariant, canonicalise. A probe's value is checked but not returned.
     fn step(&self, ns: i128, zone: u8, depth: u8, ai: usize) -> Option<St> {
         let act = &self.acts[ai];
         let tz = &self.zones[zone as usize].tz;
         let z = Zoned::new(Timestamp::from_nanosecond(ns).expect("state instant in range"), tz.clone());
         self.transitions.fetch_add(1, Relaxed);
+        if act.probe.is_some() {
+            self.probe_transitions.fetch_add(1, Relaxed);
+        }
         match self.exec(&z, zone, &act.op) {
             Err(p) => {
-                self.r.viol("bfs", &format!("{}/{}", act.name, panic_sig(&p)), self.case(ns, zone, act), p);
+                // (for probes the sign of a year embedded in the message is
+                // dropped from the signature as the digits are, and digits cut
+                // by the 80-character limit are dropped: one defect at both
+                // ends of the range is one signature)
+                let ps = if act.probe.is_some() { panic_sig(&p).replace("-#", "#").trim_end_matches('#').trim_end().to_string() } else { panic_sig(&p) };
+                self.r.viol("bfs", &format!("{}/{}", act.sig, ps), self.case(ns, zone, act), p);
                 self.no_successor.fetch_add(1, Relaxed);
                 None
             }
@@ -266,14 +868,21 @@ impl Shared {
                 self.per_action_err[ai].fetch_add(1, Relaxed);
                 None
             }
-            Ok(Some((v, want_zone, keeps))) => {
+            Ok(Some(o)) => {
                 self.produced.fetch_add(1, Relaxed);
                 self.per_action_ok[ai].fetch_add(1, Relaxed);
-                if !self.invariant(&v, ns, zone, act, want_zone, keeps) {
+                if o.v.offset() != z.offset() {
+                    self.per_action_offset_changed[ai].fetch_add(1, Relaxed);
+                }
+                if !self.invariant(&o.v, Some(&z), ns, zone, act, &o.zone, o.keeps_instant, o.input_class) {
                     self.violating_values.fetch_add(1, Relaxed);
                     return None;
                 }
-                let out = v.timestamp().as_nanosecond();
+                if act.probe.is_some() {
+                    return None;
+                }
+                let WantZone::Idx(want_zone) = o.zone else { unreachable!("expanding actions stay within the zones of the run") };
+                let out = o.v.timestamp().as_nanosecond();
                 self.record_value(out, want_zone, depth + 1);
                 Some(St { ns: out, zone: want_zone, depth: depth + 1 })
             }
@@ -296,7 +905,14 @@ impl Model for ZModel {
 
     fn actions(&self, s: &St, out: &mut Vec<u16>) {
         if s.depth < self.sh.bound {
-            out.extend(0..self.sh.acts.len() as u16);
+            for (i, a) in self.sh.acts.iter().enumerate() {
+                // (the probes of the depth-0 states are run by `run_bfs` itself, in
+                // parallel, before the checker starts: stateright hands the whole
+                // initial job to one thread)
+                if a.probe.map_or(true, |d| s.depth > 0 && s.depth <= d) {
+                    out.push(i as u16);
+                }
+            }
         }
     }
 
@@ -313,9 +929,17 @@ impl Model for ZModel {
     }
 }
 
-fn build_actions(zones: &[Zn], core_only: bool) -> Vec<Act> {
+/// Depths up to which the light (`l`) and heavy (`h`) probes are offered;
+/// `None` = the family is not part of the run.
+#[derive(Clone, Copy)]
+struct Probes {
+    l: Option<u8>,
+    h: Option<u8>,
+}
+
+fn build_actions(zones: &[Zn], core_only: bool, probes: Probes) -> Vec<Act> {
     let mut v: Vec<Act> = vec![];
-    let mut push = |name: String, op: Op| v.push(Act { name, op });
+    let mut push = |name: String, op: Op| v.push(Act { sig: name.clone(), name, op, probe: None });
     let sp = Span::new();
     let spans: Vec<(&str, Span)> = vec![
         ("1ns", sp.nanoseconds(1)),
@@ -412,6 +1036,247 @@ fn build_actions(zones: &[Zn], core_only: bool) -> Vec<Act> {
         push("epoch.until(z)+checked_add(largest=hour)".into(), Op::UntilAdd(Unit::Hour));
         push("epoch.until(z)+checked_add(largest=year)".into(), Op::UntilAdd(Unit::Year));
     }
+    if let Some(d) = probes.l {
+        for (name, op) in light_probes() {
+            v.push(Act { sig: sig_of(&name), name, op, probe: Some(d) });
+        }
+    }
+    if let Some(d) = probes.h {
+        for (name, op) in heavy_probes() {
+            v.push(Act { sig: sig_of(&name), name, op, probe: Some(d) });
+        }
+    }
+    {
+        let mut seen = std::collections::HashSet::new();
+        for a in &v {
+            assert!(seen.insert(a.name.clone()), "duplicate action name {}", a.name);
+        }
+    }
+    v
+}
+
+/// Signature prefix of a probe: its name without the civil shift.
+fn sig_of(name: &str) -> String {
+    let mut s = name.to_string();
+    for (sn, _) in &SHIFTS[1..] {
+        s = s.replace(&format!("datetime(){}", sn), "datetime()");
+    }
+    s.replace("date()+1d", "date()")
+}
+
+const DISAMBS: [(&str, Disambiguation); 4] =
+    [("compatible", Disambiguation::Compatible), ("earlier", Disambiguation::Earlier), ("later", Disambiguation::Later), ("reject", Disambiguation::Reject)];
+const CONFLICTS: [(&str, OffsetConflict); 4] = [
+    ("always_offset", OffsetConflict::AlwaysOffset),
+    ("always_time_zone", OffsetConflict::AlwaysTimeZone),
+    ("prefer_offset", OffsetConflict::PreferOffset),
+    ("reject", OffsetConflict::Reject),
+];
+/// civil shifts (seconds) applied to the state's datetime before it is handed
+/// to a civil-datetime producer: from the instants just before / at a
+/// transition these reach the inside of 1 h, 30 min, 44.5 min and 24 h gaps
+const SHIFTS: [(&str, i64); 4] = [("", 0), ("+1h", 3600), ("-1h", -3600), ("+30m", 1800)];
+
+/// Light probes: every non-parsing producer of a `Zoned` that the expanding
+/// alphabet lacks (or has with fewer argument classes).
+fn light_probes() -> Vec<(String, Op)> {
+    let mut v: Vec<(String, Op)> = vec![];
+    let sp = Span::new();
+    let h = 3600i64;
+    // -- arithmetic with the two absolute duration types
+    for (n, secs, nanos) in [("1ns", 0i64, 1i32), ("1h", h, 0), ("25h", 25 * h, 0), ("-1h", -h, 0), ("-25h", -25 * h, 0)] {
+        v.push((format!("checked_add(SignedDuration {})", n), Op::Checked(true, Arith::Sd(SignedDuration::new(secs, nanos)))));
+    }
+    v.push(("checked_sub(SignedDuration 1h)".into(), Op::Checked(false, Arith::Sd(SignedDuration::from_secs(h)))));
+    v.push(("checked_add(std Duration 1h)".into(), Op::Checked(true, Arith::Ud(StdDuration::from_secs(3600)))));
+    v.push(("checked_sub(std Duration 1h)".into(), Op::Checked(false, Arith::Ud(StdDuration::from_secs(3600)))));
+    // -- spans of the units and signs the expanding alphabet lacks
+    for (n, s) in [("1w", sp.weeks(1)), ("-1mo-1d-1h", sp.months(-1).days(-1).hours(-1)), ("90m", sp.minutes(90)), ("-3600s", sp.seconds(-3600)), ("1y1ms1us", sp.years(1).milliseconds(1).microseconds(1))] {
+        v.push((format!("checked_add({})", n), Op::Checked(true, Arith::Sp(s))));
+    }
+    // -- saturating arithmetic: a calendar span, a time span and the two
+    //    duration types; 96 h and 1 month overflow from the start values
+    //    three days inside the limits, so both arms are taken
+    let sats: Vec<(&str, Arith)> = vec![
+        ("1h", Arith::Sp(sp.hours(1))),
+        ("96h", Arith::Sp(sp.hours(96))),
+        ("1mo", Arith::Sp(sp.months(1))),
+        ("SignedDuration 96h", Arith::Sd(SignedDuration::from_hours(96))),
+        ("SignedDuration -96h", Arith::Sd(SignedDuration::from_hours(-96))),
+        ("SignedDuration::MIN", Arith::Sd(SignedDuration::MIN)),
+        ("std Duration 96h", Arith::Ud(StdDuration::from_secs(96 * 3600))),
+        ("std Duration::MAX", Arith::Ud(StdDuration::MAX)),
+    ];
+    for (n, a) in &sats {
+        v.push((format!("saturating_add({})", n), Op::Saturating(true, *a)));
+        v.push((format!("saturating_sub({})", n), Op::Saturating(false, *a)));
+    }
+    // -- the operators
+    let opers = [("&z + ", Oper::Add), ("&z - ", Oper::Sub), ("z += ", Oper::AddAssign), ("z -= ", Oper::SubAssign)];
+    let oper_args: Vec<(&str, Arith)> = vec![
+        ("Span 1h", Arith::Sp(sp.hours(1))),
+        ("Span 1mo", Arith::Sp(sp.months(1))),
+        ("SignedDuration 1h", Arith::Sd(SignedDuration::from_hours(1))),
+        ("std Duration 1h", Arith::Ud(StdDuration::from_secs(3600))),
+    ];
+    for (on, o) in &opers {
+        for (an, a) in &oper_args {
+            v.push((format!("{}{}", on, an), Op::Operator(*o, *a)));
+        }
+    }
+    // -- navigation
+    for (n, w, wn) in [(1i8, Weekday::Sunday, "Sunday"), (2, Weekday::Sunday, "Sunday"), (-1, Weekday::Sunday, "Sunday"), (5, Weekday::Sunday, "Sunday"), (1, Weekday::Saturday, "Saturday"), (-1, Weekday::Saturday, "Saturday")] {
+        v.push((format!("nth_weekday_of_month({},{})", n, wn), Op::NthWeekdayOfMonth(n, w)));
+    }
+    v.push(("nth_weekday(2,Sunday)".into(), Op::NthWeekday(2, Weekday::Sunday)));
+    v.push(("nth_weekday(-1,Saturday)".into(), Op::NthWeekday(-1, Weekday::Saturday)));
+    // -- rounding: the remaining units, increments and modes
+    let more_modes = [
+        ("Trunc", RoundMode::Trunc),
+        ("Expand", RoundMode::Expand),
+        ("HalfFloor", RoundMode::HalfFloor),
+        ("HalfCeil", RoundMode::HalfCeil),
+        ("HalfTrunc", RoundMode::HalfTrunc),
+        ("HalfEven", RoundMode::HalfEven),
+    ];
+    for (mn, m) in &more_modes {
+        v.push((format!("round(day,{})", mn), Op::Round(Unit::Day, 1, *m)));
+        v.push((format!("round(hour,{})", mn), Op::Round(Unit::Hour, 1, *m)));
+    }
+    v.push(("round(second,HalfExpand)".into(), Op::Round(Unit::Second, 1, RoundMode::HalfExpand)));
+    v.push(("round(30seconds,Ceil)".into(), Op::Round(Unit::Second, 30, RoundMode::Ceil)));
+    v.push(("round(millisecond,Ceil)".into(), Op::Round(Unit::Millisecond, 1, RoundMode::Ceil)));
+    v.push(("round(microsecond,Floor)".into(), Op::Round(Unit::Microsecond, 1, RoundMode::Floor)));
+    v.push(("round(nanosecond,HalfEven)".into(), Op::Round(Unit::Nanosecond, 1, RoundMode::HalfEven)));
+    v.push(("round(30minutes,Expand)".into(), Op::Round(Unit::Minute, 30, RoundMode::Expand)));
+    v.push(("round(12hours,HalfExpand)".into(), Op::Round(Unit::Hour, 12, RoundMode::HalfExpand)));
+    v.push(("round(Unit::Hour)".into(), Op::RoundUnit(Unit::Hour)));
+    v.push(("round(Unit::Day)".into(), Op::RoundUnit(Unit::Day)));
+    v.push(("round((Unit::Minute,15))".into(), Op::RoundUnitInc(Unit::Minute, 15)));
+    // -- with(): every setter the expanding alphabet lacks
+    //    2011-12-30 does not exist in Pacific/Apia, 2024-03-10 / 2024-03-31 /
+    //    2024-10-06 are gap days of New_York / London / Lord_Howe
+    for (y, m, d) in [(2011i16, 12i8, 30i8), (2024, 3, 10), (2024, 3, 31), (2024, 10, 6)] {
+        v.push((format!("with.date({:04}-{:02}-{:02})", y, m, d), Op::WithDate(DateSel::Fixed(y, m, d))));
+    }
+    v.push(("with.date(tomorrow)".into(), Op::WithDate(DateSel::Tomorrow)));
+    for (n, t) in [("00:00", Time::midnight()), ("02:30", Time::constant(2, 30, 0, 0)), ("01:59:59.999999999", Time::constant(1, 59, 59, 999_999_999)), ("23:59:59.999999999", Time::MAX)] {
+        v.push((format!("with.time({})", n), Op::WithTime(t)));
+    }
+    v.push(("with.year(2024)".into(), Op::WithYear(YearSel::Fixed(2024))));
+    v.push(("with.year(1919)".into(), Op::WithYear(YearSel::Fixed(1919))));
+    v.push(("with.year(previous)".into(), Op::WithYear(YearSel::Previous)));
+    v.push(("with.era_year(2011,CE)".into(), Op::WithEraYear(2011, Era::CE)));
+    v.push(("with.era_year(1,BCE)".into(), Op::WithEraYear(1, Era::BCE)));
+    for d in [1i16, 60, 366] {
+        v.push((format!("with.day_of_year({})", d), Op::WithDayOfYear(d)));
+    }
+    for d in [59i16, 365] {
+        v.push((format!("with.day_of_year_no_leap({})", d), Op::WithDayOfYearNoLeap(d)));
+    }
+    for s in [0i8, 59] {
+        v.push((format!("with.second({})", s), Op::WithSecond(s)));
+    }
+    v.push(("with.millisecond(999)".into(), Op::WithMillisecond(999)));
+    v.push(("with.microsecond(999)".into(), Op::WithMicrosecond(999)));
+    v.push(("with.nanosecond(999)".into(), Op::WithNanosecond(999)));
+    v.push(("with.subsec_nanosecond(0)".into(), Op::WithSubsec(0)));
+    v.push(("with.minute(0)".into(), Op::WithMinute(0)));
+    v.push(("with.build()".into(), Op::WithNothing));
+    // the offset setter with the current offset, and with the offsets 1 h /
+    // 30 min away (the other side of a fold, or no valid offset at all)
+    for (dn, delta) in [("current", 0i32), ("current-1h", -3600), ("current+30m", 1800), ("current-30m", -1800)] {
+        for (cn, c) in &CONFLICTS {
+            v.push((format!("with.offset({}).offset_conflict({})", dn, cn), Op::WithOffset(delta, *c)));
+        }
+    }
+    // the conflict strategies against the ORIGINAL offset after a clock change
+    for hour in [1i8, 2] {
+        for (cn, c) in &CONFLICTS {
+            v.push((format!("with.hour({}).offset_conflict({})", hour, cn), Op::WithHourConflict(hour, *c)));
+        }
+    }
+    for (n, d) in &DISAMBS {
+        v.push((format!("with.hour(2).disambiguation({})", n), Op::WithHourDisamb(2, *d)));
+    }
+    v.push(("with.hour(1).disambiguation(compatible)".into(), Op::WithHourDisamb(1, Disambiguation::Compatible)));
+    // -- constructors from a civil datetime (shifted, see SHIFTS)
+    for (sn, shift) in &SHIFTS {
+        let arg = if *shift == 0 { "datetime()".to_string() } else { format!("datetime(){}", sn) };
+        if *shift != 0 {
+            v.push((format!("({}).to_zoned(tz)", arg), Op::Civil(*shift, CivilProd::DateTimeToZoned)));
+        }
+        v.push((format!("({}).in_tz(name)", arg), Op::Civil(*shift, CivilProd::DateTimeInTz)));
+        v.push((format!("tz.to_zoned({})", arg), Op::Civil(*shift, CivilProd::TzToZoned)));
+        v.push((format!("tz.to_ambiguous_zoned({}).compatible()", arg), Op::Civil(*shift, CivilProd::Compatible)));
+        v.push((format!("tz.to_ambiguous_zoned({}).earlier()", arg), Op::Civil(*shift, CivilProd::Earlier)));
+        v.push((format!("tz.to_ambiguous_zoned({}).later()", arg), Op::Civil(*shift, CivilProd::Later)));
+        v.push((format!("tz.to_ambiguous_zoned({}).unambiguous()", arg), Op::Civil(*shift, CivilProd::Unambiguous)));
+        for (n, d) in &DISAMBS {
+            v.push((format!("tz.into_ambiguous_zoned({}).disambiguate({})", arg, n), Op::Civil(*shift, CivilProd::IntoAmbiguous(*d))));
+        }
+    }
+    // a date alone means its midnight (which Sao_Paulo's gaps skip); +1 day
+    // reaches the day after a transition day's eve
+    for (sn, shift) in [("", 0i64), ("+1d", 86_400)] {
+        v.push((format!("date(){}.to_zoned(tz)", sn), Op::Civil(shift, CivilProd::DateToZoned)));
+        v.push((format!("date(){}.in_tz(name)", sn), Op::Civil(shift, CivilProd::DateInTz)));
+    }
+    v.push(("timestamp().in_tz(name)".into(), Op::TimestampInTz));
+    v.push(("Zoned::new(timestamp(),tz)".into(), Op::ZonedNew));
+    v.push(("clone()".into(), Op::Clone));
+    v.push(("Zoned::try_from(SystemTime)".into(), Op::FromSystemTime));
+    v
+}
+
+/// Heavy probes: the full option products of `with()` and the text parsers.
+fn heavy_probes() -> Vec<(String, Op)> {
+    let mut v: Vec<(String, Op)> = vec![];
+    // all options at once: clock time 01:30 / 02:30 (inside the usual folds
+    // and gaps), offset right or 1 h off, every strategy pair
+    for (hour, minute) in [(1i8, 30i8), (2, 30)] {
+        for (dn, delta) in [("current", 0i32), ("current+1h", 3600), ("current-1h", -3600)] {
+            for (cn, c) in &CONFLICTS {
+                for (n, d) in &DISAMBS {
+                    v.push((
+                        format!("with.hour({}).minute({}).offset({}).offset_conflict({}).disambiguation({})", hour, minute, dn, cn, n),
+                        Op::WithAll(hour, minute, delta, *c, *d),
+                    ));
+                }
+            }
+        }
+    }
+    for (sn, shift) in &SHIFTS {
+        let arg = format!("datetime(){}", sn);
+        // no offset in the text: only the disambiguation matters
+        for (n, d) in &DISAMBS {
+            v.push((format!("DateTimeParser::parse_zoned[{}, no offset].disambiguation({})", arg, n), Op::ParseTemporal(*shift, OffText::Absent, OffsetConflict::Reject, *d)));
+        }
+        // `Z`: documented to be taken as the instant, whatever the strategy
+        for (cn, c) in &CONFLICTS {
+            v.push((format!("DateTimeParser::parse_zoned[{}, Z].offset_conflict({})", arg, cn), Op::ParseTemporal(*shift, OffText::Zulu, *c, Disambiguation::Compatible)));
+        }
+        // a numeric offset: the state's, or 1 h / 30 min away from it
+        for (dn, delta) in [("current", 0i32), ("current+1h", 3600), ("current-1h", -3600), ("current+30m", 1800)] {
+            for (cn, c) in &CONFLICTS {
+                for (n, d) in &DISAMBS {
+                    v.push((
+                        format!("DateTimeParser::parse_zoned[{}, offset {}].offset_conflict({}).disambiguation({})", arg, dn, cn, n),
+                        Op::ParseTemporal(*shift, OffText::Cur(delta), *c, *d),
+                    ));
+                }
+            }
+        }
+        v.push((format!("Zoned::strptime[{} %Q]", arg), Op::Strptime(*shift, StrpKind::Q)));
+        for (dn, delta) in [("current", 0i32), ("current+1h", 3600), ("current-1h", -3600)] {
+            v.push((format!("Zoned::strptime[{} %:z={} %Q]", arg, dn), Op::Strptime(*shift, StrpKind::ZQ(delta))));
+        }
+        for (dn, delta) in [("current", 0i32), ("current+1h", 3600)] {
+            v.push((format!("Zoned::strptime[{} %:z={}]", arg, dn), Op::Strptime(*shift, StrpKind::Z(delta))));
+        }
+    }
+    v.push(("rfc2822::to_string->rfc2822::parse".into(), Op::Rfc2822(false)));
+    v.push(("rfc2822::to_string->rfc2822::DateTimeParser::parse_zoned".into(), Op::Rfc2822(true)));
     v
 }
 
@@ -433,11 +1298,17 @@ fn load_zones(names: &[&str]) -> Vec<Zn> {
 const SHORT_REGIME: &str = "XXX0YYY-2,J100/0,J100/2:30";
 
 /// Initial instants of a zone: epoch, `k` transitions within 1900..2040 each at
-/// -1 ns, 0, +1 h, and the range limits moved inward by three days.
-fn init_instants(name: &str, k: usize) -> Vec<i128> {
+/// -1 ns, 0, +1 h, the range limits and the limits moved inward by three days,
+/// and the zone's first offset change. Second component: instants entered at
+/// depth 1 (so that they cost one level less): the same transitions at
+/// -24 h -+ 15 min and +24 h -+ 15 min, i.e. the day before and the day after at
+/// a clock time that lies inside the gap / fold on the transition day, from
+/// which the navigation helpers and date setters land inside it.
+fn init_instants(name: &str, k: usize) -> (Vec<i128>, Vec<i128>) {
+    let mut seeds: Vec<i128> = vec![];
     let ts_min = Timestamp::MIN.as_nanosecond();
     let ts_max = Timestamp::MAX.as_nanosecond();
-    let mut v: Vec<i128> = vec![0, ts_min + 3 * 86_400 * NS, ts_max - 3 * 86_400 * NS];
+    let mut v: Vec<i128> = vec![0, ts_min + 3 * 86_400 * NS, ts_max - 3 * 86_400 * NS, ts_min, ts_max];
     let model = if let Some(p) = name.strip_prefix("posix(").and_then(|x| x.strip_suffix(')')) {
         rtz::zone_from_posix(p.as_bytes()).ok()
     } else {
@@ -447,7 +1318,14 @@ fn init_instants(name: &str, k: usize) -> Vec<i128> {
         if let Some(m) = model {
             let lo = cal::days_from_civil(1900, 1, 1) * 86_400;
             let hi = cal::days_from_civil(2040, 1, 1) * 86_400;
-            let ch: Vec<i64> = m.changing().into_iter().map(|i| m.pieces[i].start).filter(|s| *s >= lo && *s < hi).collect();
+            let all: Vec<i64> = m.changing().into_iter().map(|i| m.pieces[i].start).collect();
+            // the zone's first offset change of all (usually local mean time,
+            // with a sub-minute offset, to standard time; before 1900 for most zones)
+            if let Some(first) = all.iter().copied().filter(|s| *s < lo && *s as i128 * NS > ts_min + 86_400 * NS).min() {
+                let b = first as i128 * NS;
+                v.extend([b - 1, b, b + 3_600 * NS]);
+            }
+            let ch: Vec<i64> = all.iter().copied().filter(|s| *s >= lo && *s < hi).collect();
             // k transitions spread evenly over the list, always including the
             // first and the last two
             let mut idx: Vec<usize> = vec![];
@@ -466,10 +1344,13 @@ fn init_instants(name: &str, k: usize) -> Vec<i128> {
             for i in idx {
                 let b = ch[i] as i128 * NS;
                 v.extend([b - 1, b, b + 3_600 * NS]);
+                let (day, q) = (86_400 * NS, 900 * NS);
+                seeds.extend([b - day - q, b - day + q, b + day - q, b + day + q]);
             }
         }
     }
-    v
+    seeds.retain(|x| !v.contains(x));
+    (v, seeds)
 }
 
 struct RunStats {
@@ -480,38 +1361,90 @@ struct RunStats {
     wall: f64,
 }
 
-fn run_bfs(r: &Arc<Report>, label: &str, zone_names: &[&str], k: usize, bound: u8, core_only: bool, cap_states: usize, timeout_s: u64) -> RunStats {
-    let zones = load_zones(zone_names);
-    let acts = build_actions(&zones, core_only);
+fn new_shared(r: &Arc<Report>, zones: Vec<Zn>, acts: Vec<Act>, bound: u8) -> Shared {
     let nacts = acts.len();
-    let mut init: Vec<St> = vec![];
-    for (zi, z) in zones.iter().enumerate() {
-        for ns in init_instants(&z.name, k) {
-            init.push(St { ns, zone: zi as u8, depth: 0 });
-        }
-    }
-    let sh = Arc::new(Shared {
+    Shared {
         r: r.clone(),
         zones,
         acts,
         bound,
-        transitions: AtomicU64::new(0),
-        no_successor: AtomicU64::new(0),
-        produced: AtomicU64::new(0),
-        violating_values: AtomicU64::new(0),
+        transitions: Ctr::new(),
+        no_successor: Ctr::new(),
+        produced: Ctr::new(),
+        violating_values: Ctr::new(),
         values: (0..SHARDS).map(|_| Mutex::new(HashMap::new())).collect(),
         per_action_ok: (0..nacts).map(|_| AtomicU64::new(0)).collect(),
         per_action_err: (0..nacts).map(|_| AtomicU64::new(0)).collect(),
-    });
+        per_action_offset_changed: (0..nacts).map(|_| AtomicU64::new(0)).collect(),
+        system_tz: TimeZone::system(),
+        probe_transitions: Ctr::new(),
+        civil_inputs: [Ctr::new(), Ctr::new(), Ctr::new()],
+        operator_overflow_panics: Ctr::new(),
+        pairs: [Ctr::new(), Ctr::new()],
+        accessor_fields_compared: Ctr::new(),
+    }
+}
+
+#[allow(clippy::too_many_arguments)]
+fn run_bfs(r: &Arc<Report>, label: &str, zone_names: &[&str], k: usize, bound: u8, core_only: bool, probes: Probes, cap_states: usize, timeout_s: u64) -> RunStats {
+    let zones = load_zones(zone_names);
+    let acts = build_actions(&zones, core_only, probes);
+    let nacts = acts.len();
+    let n_probes = acts.iter().filter(|a| a.probe.is_some()).count();
+    let mut init: Vec<St> = vec![];
+    let mut n_seeds = 0usize;
+    for (zi, z) in zones.iter().enumerate() {
+        let (at0, at1) = init_instants(&z.name, k);
+        for ns in at0 {
+            init.push(St { ns, zone: zi as u8, depth: 0 });
+        }
+        // the depth-1 seeds only serve the probes and the last two levels
+        if !core_only {
+            for ns in at1 {
+                init.push(St { ns, zone: zi as u8, depth: 1 });
+                n_seeds += 1;
+            }
+        }
+    }
+    let sh = Arc::new(new_shared(r, zones, acts, bound));
     // the initial values are themselves checked (constructed with Zoned::new)
-    let init_act = Act { name: "Zoned::new".into(), op: Op::TimestampToZoned };
+    let init_act = Act { name: "Zoned::new".into(), sig: "Zoned::new".into(), op: Op::TimestampToZoned, probe: None };
     for s in &init {
         let z = Zoned::new(Timestamp::from_nanosecond(s.ns).unwrap(), sh.zones[s.zone as usize].tz.clone());
-        sh.invariant(&z, s.ns, s.zone, &init_act, s.zone, true);
-        sh.record_value(s.ns, s.zone, 0);
+        sh.invariant(&z, None, s.ns, s.zone, &init_act, &WantZone::Idx(s.zone), true, "");
+        sh.record_value(s.ns, s.zone, s.depth);
+    }
+    // Zoned::default() is the epoch in UTC
+    if let Some(utc) = sh.zones.iter().position(|z| z.name == "UTC") {
+        let act = Act { name: "Zoned::default".into(), sig: "Zoned::default".into(), op: Op::ZonedNew, probe: None };
+        match guard(Zoned::default) {
+            Ok(z) => {
+                sh.invariant(&z, None, 0, utc as u8, &act, &WantZone::Idx(utc as u8), true, "");
+            }
+            Err(p) => r.viol("bfs", &format!("Zoned::default/{}", panic_sig(&p)), "Zoned::default()".to_string(), p),
+        }
     }
     let n_init = init.len();
     let t0 = std::time::Instant::now();
+    // the probes of the depth-0 states
+    {
+        let probe_ix: Vec<usize> = sh.acts.iter().enumerate().filter(|(_, a)| a.probe.is_some()).map(|(i, _)| i).collect();
+        let at0: Vec<&St> = init.iter().filter(|s| s.depth == 0).collect();
+        let nthreads = std::thread::available_parallelism().map(|n| n.get()).unwrap_or(16).min(16);
+        std::thread::scope(|sc| {
+            for t in 0..nthreads {
+                let (sh, at0, probe_ix) = (&sh, &at0, &probe_ix);
+                sc.spawn(move || {
+                    for s in at0.iter().skip(t).step_by(nthreads) {
+                        for &ai in probe_ix {
+                            let got = sh.step(s.ns, s.zone, 0, ai);
+                            debug_assert!(got.is_none());
+                        }
+                    }
+                });
+            }
+        });
+    }
     let model = ZModel { sh: sh.clone(), init };
     let threads = std::thread::available_parallelism().map(|n| n.get()).unwrap_or(16).min(16);
     let checker = model
@@ -541,6 +1474,40 @@ fn run_bfs(r: &Arc<Report>, label: &str, zone_names: &[&str], k: usize, bound: u
     r.add_transitions(tr);
     r.add_validated(sh.produced.load(Relaxed));
     r.count(&format!("{}:initial_states", label), n_init as u64);
+    r.count(&format!("{}:initial_states_entered_at_depth_1", label), n_seeds as u64);
+    r.count(&format!("{}:probes(non-expanding actions)", label), n_probes as u64);
+    r.count(&format!("{}:probes_light_offered_in_this_many_levels(0..)", label), probes.l.map_or(0, |d| d as u64 + 1));
+    r.count(&format!("{}:probes_heavy_offered_in_this_many_levels(0..)", label), probes.h.map_or(0, |d| d as u64 + 1));
+    let ptr = sh.probe_transitions.load(Relaxed);
+    r.count(&format!("{}:probe_transitions", label), ptr);
+    r.count(&format!("{}:expanding_transitions", label), sh.transitions.load(Relaxed) - ptr);
+    let civ: Vec<u64> = sh.civil_inputs.iter().map(|a| a.load(Relaxed)).collect();
+    r.outcome(&format!("{}:civil_input:unambiguous", label), civ[0]);
+    r.outcome(&format!("{}:civil_input:gap", label), civ[1]);
+    r.outcome(&format!("{}:civil_input:fold", label), civ[2]);
+    r.outcome(&format!("{}:operator_overflow_panics_excluded(checked twin is Err)", label), sh.operator_overflow_panics.load(Relaxed));
+    r.count(&format!("{}:eq_ord_hash_pairs_same_instant", label), sh.pairs[0].load(Relaxed));
+    r.count(&format!("{}:eq_ord_hash_pairs_different_instants", label), sh.pairs[1].load(Relaxed));
+    r.count(&format!("{}:accessor_fields_compared_with_model", label), sh.accessor_fields_compared.load(Relaxed));
+    let off_changed: u64 = sh.per_action_offset_changed.iter().map(|a| a.load(Relaxed)).sum();
+    r.count(&format!("{}:values_whose_offset_differs_from_the_source_state", label), off_changed);
+    // actions that can change the offset at all (everything but zone changes
+    // to a zone with the same offset ...) should have done so somewhere
+    let never_changed: Vec<&str> = sh
+        .acts
+        .iter()
+        .enumerate()
+        .filter(|(i, _)| sh.per_action_ok[*i].load(Relaxed) > 0 && sh.per_action_offset_changed[*i].load(Relaxed) == 0)
+        .map(|(_, a)| a.name.as_str())
+        .collect();
+    r.count(&format!("{}:actions_that_never_changed_the_offset", label), never_changed.len() as u64);
+    if !never_changed.is_empty() {
+        r.note(format!("{}: actions whose value never had another offset than the source state: {}", label, never_changed.join(", ")));
+    }
+    if n_probes > 0 {
+        r.require(civ[1] > 0 && civ[2] > 0, "civil-datetime producers were fed datetimes inside gaps and inside folds");
+        r.require(sh.pairs[1].load(Relaxed) > 0, "Eq/Ord/Hash were compared on pairs of different instants");
+    }
     r.count(&format!("{}:zones", label), sh.zones.len() as u64);
     r.count(&format!("{}:actions", label), nacts as u64);
     r.count(&format!("{}:depth_bound", label), bound as u64);
@@ -561,7 +1528,7 @@ fn run_bfs(r: &Arc<Report>, label: &str, zone_names: &[&str], k: usize, bound: u
     }
     let mut fam: std::collections::BTreeMap<String, (u64, u64)> = Default::default();
     for (i, a) in sh.acts.iter().enumerate() {
-        let f = a.name.split(|c: char| c == '(' || c == '.').next().unwrap_or("").to_string();
+        let f = a.name.trim_start_matches('(').split(|c: char| c == '(' || c == '.').next().unwrap_or("").to_string();
         let e = fam.entry(f).or_insert((0, 0));
         e.0 += sh.per_action_ok[i].load(Relaxed);
         e.1 += sh.per_action_err[i].load(Relaxed);
@@ -572,7 +1539,21 @@ fn run_bfs(r: &Arc<Report>, label: &str, zone_names: &[&str], k: usize, bound: u
     }
     let never_err = sh.acts.iter().enumerate().filter(|(i, _)| sh.per_action_err[*i].load(Relaxed) == 0).count();
     r.count(&format!("{}:actions_that_never_failed", label), never_err as u64);
-    r.require(never_ok.is_empty(), "every action produced a value somewhere");
+    // a probe with a shifted civil input may legitimately never succeed (a
+    // wrong offset under `reject`, ...): non-vacuity is required of every
+    // expanding action and of every probe signature (= all shifts together)
+    let mut sig_ok: std::collections::BTreeMap<&str, (u64, bool)> = Default::default();
+    for (i, a) in sh.acts.iter().enumerate() {
+        let e = sig_ok.entry(a.sig.as_str()).or_insert((0, a.probe.is_some()));
+        e.0 += sh.per_action_ok[i].load(Relaxed);
+    }
+    let sig_never_ok: Vec<&str> = sig_ok.iter().filter(|(_, (n, _))| *n == 0).map(|(s, _)| *s).collect();
+    r.count(&format!("{}:signatures(operations)", label), sig_ok.len() as u64);
+    r.count(&format!("{}:signatures_that_never_succeeded", label), sig_never_ok.len() as u64);
+    if !sig_never_ok.is_empty() {
+        r.note(format!("{}: operations that never produced a value: {}", label, sig_never_ok.join(", ")));
+    }
+    r.require(sig_never_ok.is_empty(), "every action produced a value somewhere");
     r.require(discoveries == 0, "the exploration property has no discovery");
     let capped_states = unique_states as usize >= cap_states;
     let capped_time = wall >= timeout_s as f64;
@@ -638,21 +1619,8 @@ fn replay(r: Arc<Report>, case: &str) -> ! {
     };
     let thorough = r.thorough();
     let zones = load_zones(if thorough { REP } else { QUICK_ZONES });
-    let acts = build_actions(&zones, false);
-    let nacts = acts.len();
-    let sh = Shared {
-        r: r.clone(),
-        zones,
-        acts,
-        bound: 1,
-        transitions: AtomicU64::new(0),
-        no_successor: AtomicU64::new(0),
-        produced: AtomicU64::new(0),
-        violating_values: AtomicU64::new(0),
-        values: (0..SHARDS).map(|_| Mutex::new(HashMap::new())).collect(),
-        per_action_ok: (0..nacts).map(|_| AtomicU64::new(0)).collect(),
-        per_action_err: (0..nacts).map(|_| AtomicU64::new(0)).collect(),
-    };
+    let acts = build_actions(&zones, false, Probes { l: Some(0), h: Some(0) });
+    let sh = new_shared(&r, zones, acts, 1);
     let zi = sh.zones.iter().position(|z| z.name == zone);
     let ai = sh.acts.iter().position(|a| a.name == action);
     let ns: Option<i128> = ts.parse().ok();
@@ -661,7 +1629,7 @@ fn replay(r: Arc<Report>, case: &str) -> ! {
             let z = Zoned::new(Timestamp::from_nanosecond(ns).unwrap(), sh.zones[zi].tz.clone());
             println!("state: {:?}", z);
             match sh.exec(&z, zi as u8, &sh.acts[ai].op) {
-                Ok(Some((v, _, _))) => println!("{} -> {:?}\n  timestamp {} offset {:?} datetime {} | to_offset {:?} to_datetime {}", action, v, v.timestamp().as_nanosecond(), v.offset(), v.datetime(), v.time_zone().to_offset(v.timestamp()), v.offset().to_datetime(v.timestamp())),
+                Ok(Some(Out { v, .. })) => println!("{} -> {:?}\n  timestamp {} offset {:?} datetime {} | to_offset {:?} to_datetime {}", action, v, v.timestamp().as_nanosecond(), v.offset(), v.datetime(), v.time_zone().to_offset(v.timestamp()), v.offset().to_datetime(v.timestamp())),
                 Ok(None) => println!("{} -> Err (no successor)", action),
                 Err(p) => println!("{} -> PANIC {}", action, p),
             }
@@ -687,32 +1655,51 @@ fn envk(default: usize) -> usize {
     std::env::var("C13_K").ok().and_then(|v| v.parse().ok()).unwrap_or(default)
 }
 
+/// development knob: C13_L / C13_H override the probe depths (-1 = off)
+fn envd(name: &str, default: Option<u8>) -> Option<u8> {
+    match std::env::var(name).ok().and_then(|v| v.parse::<i32>().ok()) {
+        Some(v) if v < 0 => None,
+        Some(v) => Some(v as u8),
+        None => default,
+    }
+}
+
+/// The zone `TimeZone::system()` is made to be (for `Zoned::try_from(SystemTime)`).
+const SYSTEM_TZ: &str = "America/New_York";
+
 fn main() {
+    // before any thread exists and before jiff looks at the environment
+    std::env::set_var("TZ", SYSTEM_TZ);
     let r = Arc::new(Report::from_args("C13"));
+    r.require(TimeZone::system().iana_name() == Some(SYSTEM_TZ), "TimeZone::system() is the zone named by TZ");
     if let Some(case) = r.only_case.clone() {
         replay(r, &case);
     }
     if r.quick() {
         // depth 3, seven named zones + a fixed offset, full action set
         r.section("bfs", || {
-            let st = run_bfs(&r, "quick", QUICK_ZONES, envk(30), 3, false, 120_000_000, 100);
+            let st = run_bfs(&r, "quick", QUICK_ZONES, envk(30), 3, false, Probes { l: envd("C13_L", Some(1)), h: envd("C13_H", Some(1)) }, 120_000_000, 100);
             r.require(st.unique_values > 10_000 && st.per_depth[3] > 0, "the search reached depth 3 with > 10^4 distinct values");
             let _ = (st.unique_states, st.max_depth, st.wall);
         });
     } else {
         // (a) wide: every representative zone, full action set, depth 3
         r.section("bfs-wide", || {
-            let a = run_bfs(&r, "wide", REP, envk(40), 3, false, 400_000_000, 1500);
+            // the light probes in every expanded state (release build); the
+            // debug-assertion build, which runs the same tier, stops one level
+            // earlier (its purpose is jiff's internal range assertions)
+            let l = if cfg!(debug_assertions) { 1 } else { 2 };
+            let a = run_bfs(&r, "wide", REP, envk(40), 3, false, Probes { l: envd("C13_L", Some(l)), h: envd("C13_H", Some(1)) }, 400_000_000, 1500);
             r.require(a.per_depth[3] > 0, "the wide search reached its depth bound");
         });
         // (b) deep, full action set: the quick zones, depth 4
         r.section("bfs-deep4", || {
-            let b = run_bfs(&r, "deep4", QUICK_ZONES, envk(4), 4, false, 400_000_000, 1500);
+            let b = run_bfs(&r, "deep4", QUICK_ZONES, envk(4), 4, false, Probes { l: envd("C13_L", Some(2)), h: envd("C13_H", Some(1)) }, 400_000_000, 1500);
             r.require(b.per_depth[4] > 0, "the depth-4 search reached its depth bound");
         });
         // (c) deeper, core action subset: the quick zones, depth 7
         r.section("bfs-deep7-core", || {
-            let b = run_bfs(&r, "deep7-core", QUICK_ZONES, envk(4), 7, true, 400_000_000, 1500);
+            let b = run_bfs(&r, "deep7-core", QUICK_ZONES, envk(4), 7, true, Probes { l: None, h: None }, 400_000_000, 1500);
             r.require(b.per_depth[7] > 0, "the depth-7 search reached its depth bound");
         });
     }
